@@ -15,6 +15,7 @@ package config
 import (
 	"encoding/hex"
 	"fmt"
+	"net/netip"
 	"os"
 	"path/filepath"
 	"reflect"
@@ -153,8 +154,31 @@ func (s *c17Schema) oracle(kind int, val string) (string, bool) {
 	return fmt.Sprint(p.Elem().Interface()), true
 }
 
+// the answers the MODEL is given for the two kinds it does not specify itself come from the Go
+// STANDARD LIBRARY (time.ParseDuration; TrimSpace + netip.ParseAddrPort), not from the code under
+// test: a FuzzyDecode / BootstrapResolvers that became lenient or strict is then a difference.
+func (s *c17Schema) stdOracle(kind int, val string) (res string, ok bool, independent bool) {
+	switch {
+	case kind == 100:
+		raw := strings.TrimSpace(val)
+		if raw == "" {
+			return "ok", true, true
+		}
+		_, err := netip.ParseAddrPort(raw)
+		return "ok", err == nil, true
+	case kind < len(s.kinds) && s.kinds[kind] == reflect.TypeFor[time.Duration]():
+		d, err := time.ParseDuration(val)
+		if err != nil {
+			return "", false, true
+		}
+		return fmt.Sprint(d), true, true
+	}
+	res, ok = s.oracle(kind, val)
+	return res, ok, false
+}
+
 func (s *c17Schema) oracleEntry(kind int, val string) string {
-	res, ok := s.oracle(kind, val)
+	res, ok, _ := s.stdOracle(kind, val)
 	if !ok {
 		return fmt.Sprintf("%d:%s:!", kind, c17H(val))
 	}
@@ -384,12 +408,23 @@ type c17CGen struct {
 	s     *c17Schema
 	stats *VStats
 	b     strings.Builder
+	// calm > 0 divides the probability of every rejected-by-design mutation (the split-configuration trees
+	// are built from several generated pieces; undamped, three quarters of them would be rejected)
+	calm float64
+}
+
+// mut decides whether to apply a mutation that config.New must reject
+func (g *c17CGen) mut(p float64) bool {
+	if g.calm > 0 {
+		p /= g.calm
+	}
+	return g.r.Chance(p)
 }
 
 func (g *c17CGen) pick(xs ...string) string { return xs[g.r.Intn(len(xs))] }
 
 func (g *c17CGen) scalarVal(t reflect.Type) string {
-	bad := g.r.Chance(0.03)
+	bad := g.mut(0.03)
 	if bad {
 		g.stats.Inc("cfg.value.invalid")
 	}
@@ -488,12 +523,12 @@ func (g *c17CGen) field(f c17Field, d int) {
 	g.indent(d)
 	switch f.kind[0] {
 	case 's':
-		if g.r.Chance(0.02) {
+		if g.mut(0.02) {
 			g.b.WriteString(f.key + " { x: y }\n") // section where a scalar is expected
 			g.stats.Inc("cfg.mut.section-for-scalar")
 			return
 		}
-		if g.r.Chance(0.03) {
+		if g.mut(0.03) {
 			g.b.WriteString(f.key + ": " + g.fn() + "\n") // function where a scalar is expected
 			g.stats.Inc("cfg.mut.fn-for-scalar")
 			return
@@ -506,7 +541,7 @@ func (g *c17CGen) field(f c17Field, d int) {
 		g.b.WriteString(f.key + ": " + g.scalarVal(f.goType) + ann + "\n")
 		g.stats.Inc("cfg.field.scalar")
 	case 'l':
-		if g.r.Chance(0.03) { // functions where a string list is expected
+		if g.mut(0.03) { // functions where a string list is expected
 			g.b.WriteString(f.key + ": " + g.fns() + "\n")
 			g.stats.Inc("cfg.mut.fn-for-strlist")
 			return
@@ -529,7 +564,7 @@ func (g *c17CGen) field(f c17Field, d int) {
 			g.stats.Inc("cfg.field.strlist.single")
 		}
 	case 'i':
-		if g.r.Chance(0.03) { // a section where a function-or-string is expected
+		if g.mut(0.03) { // a section where a function-or-string is expected
 			g.b.WriteString(f.key + " { x }\n")
 			g.stats.Inc("cfg.mut.section-for-iface")
 			return
@@ -541,12 +576,12 @@ func (g *c17CGen) field(f c17Field, d int) {
 		if g.r.Chance(0.4) {
 			ann = " [add_latency: 500ms" + g.pick("", ", x: y", ", z") + "]"
 		}
-		if g.r.Chance(0.04) {
+		if g.mut(0.04) {
 			g.b.WriteString(f.key + " { name(x) }\n") // a section where functions are expected
 			g.stats.Inc("cfg.mut.section-for-fnlist")
 			return
 		}
-		if g.r.Chance(0.1) {
+		if g.mut(0.1) {
 			g.b.WriteString(f.key + ": " + g.pick("x", "'a,b'") + "\n") // string where functions are expected
 			g.stats.Inc("cfg.mut.string-for-fnlist")
 			return
@@ -555,7 +590,7 @@ func (g *c17CGen) field(f c17Field, d int) {
 		g.stats.Inc("cfg.field.fnlists")
 	case 't':
 		sid, _ := strconv.Atoi(f.kind[1:])
-		if g.r.Chance(0.03) {
+		if g.mut(0.03) {
 			g.b.WriteString(f.key + ": x\n") // string where a section is expected
 			g.stats.Inc("cfg.mut.string-for-section")
 			return
@@ -586,6 +621,9 @@ func (g *c17CGen) structBody(sid int, d int) {
 		p := 0.25
 		if f.req {
 			p = 0.93
+			if g.calm > 0 {
+				p = 1 - 0.07/g.calm
+			}
 		}
 		if len(st.fields) > 20 {
 			p = 0.12
@@ -606,11 +644,11 @@ func (g *c17CGen) structBody(sid int, d int) {
 		for i, n := 0, g.r.Intn(5); i < n; i++ {
 			g.rule(d)
 		}
-	} else if g.r.Chance(0.03) {
+	} else if g.mut(0.03) {
 		g.rule(d)
 		g.stats.Inc("cfg.mut.rule-in-plain-struct")
 	}
-	if g.r.Chance(0.04) {
+	if g.mut(0.04) {
 		g.indent(d)
 		if len(st.fields) > 0 && g.r.Chance(0.6) { // a near miss of a valid key of this struct
 			k := st.fields[g.r.Intn(len(st.fields))].key
@@ -622,7 +660,7 @@ func (g *c17CGen) structBody(sid int, d int) {
 			g.stats.Inc("cfg.mut.unknown-key")
 		}
 	}
-	if g.r.Chance(0.03) {
+	if g.mut(0.03) {
 		g.indent(d)
 		g.b.WriteString(g.pick("keyless", "'key less'", "1.2.3.4") + "\n")
 		g.stats.Inc("cfg.mut.keyless")
@@ -638,10 +676,36 @@ func (g *c17CGen) structListBody(sid int, d int) {
 		g.b.WriteString("}\n")
 		g.stats.Inc("cfg.field.structlist.elem")
 	}
-	if g.r.Chance(0.06) {
+	if g.mut(0.06) {
 		g.indent(d)
 		g.b.WriteString(g.pick("x", "k: v", "f(x) -> y") + "\n")
 		g.stats.Inc("cfg.mut.nonsection-in-structlist")
+	}
+}
+
+// section writes one top-level section of the given spec
+func (g *c17CGen) section(sp c17Field) {
+	switch sp.kind[0] {
+	case 't':
+		sid, _ := strconv.Atoi(sp.kind[1:])
+		g.b.WriteString(sp.key + " {\n")
+		g.structBody(sid, 1)
+		g.b.WriteString("}\n")
+	case 'T':
+		sid, _ := strconv.Atoi(sp.kind[1:])
+		g.b.WriteString(sp.key + " {\n")
+		g.structListBody(sid, 1)
+		g.b.WriteString("}\n")
+	default: // string list: only the section form exists at top level
+		g.b.WriteString(sp.key + " {\n")
+		for i, n := 0, g.r.Intn(4); i < n; i++ {
+			g.b.WriteString("  " + g.pick("a", "'b c'", "k: v", "'x,y'", "tag: 'ss://LINK'", "f: g(h)", "'https://sub/link'", "f: !g(a, k: b, c, d, e, f, h) && i(j)", "f: g(a, b, c, d, e)") + "\n")
+		}
+		if g.mut(0.05) {
+			g.b.WriteString("  " + g.pick("r(x) -> y", "s { }") + "\n")
+			g.stats.Inc("cfg.mut.nonparam-in-strlist")
+		}
+		g.b.WriteString("}\n")
 	}
 }
 
@@ -664,28 +728,7 @@ func (g *c17CGen) config() string {
 			g.stats.Inc("cfg.mut.duplicate-section")
 		}
 		for k := 0; k < reps; k++ {
-			switch sp.kind[0] {
-			case 't':
-				sid, _ := strconv.Atoi(sp.kind[1:])
-				g.b.WriteString(sp.key + " {\n")
-				g.structBody(sid, 1)
-				g.b.WriteString("}\n")
-			case 'T':
-				sid, _ := strconv.Atoi(sp.kind[1:])
-				g.b.WriteString(sp.key + " {\n")
-				g.structListBody(sid, 1)
-				g.b.WriteString("}\n")
-			default: // string list: only the section form exists at top level
-				g.b.WriteString(sp.key + " {\n")
-				for i, n := 0, g.r.Intn(4); i < n; i++ {
-					g.b.WriteString("  " + g.pick("a", "'b c'", "k: v", "'x,y'", "tag: 'ss://LINK'", "f: g(h)", "'https://sub/link'", "f: !g(a, k: b, c, d, e, f, h) && i(j)", "f: g(a, b, c, d, e)") + "\n")
-				}
-				if g.r.Chance(0.05) {
-					g.b.WriteString("  " + g.pick("r(x) -> y", "s { }") + "\n")
-					g.stats.Inc("cfg.mut.nonparam-in-strlist")
-				}
-				g.b.WriteString("}\n")
-			}
+			g.section(sp)
 		}
 	}
 	if g.r.Chance(0.05) {
@@ -731,7 +774,8 @@ var c17FixedConfigs = []string{
 type c17File struct {
 	rel     string
 	dir     bool
-	link    bool // dangling symbolic link
+	link    bool   // symbolic link: dangling when target is empty
+	target  string // absolute target of a DIRECTORY link
 	perm    os.FileMode
 	content string
 }
@@ -759,7 +803,16 @@ func (g *c17CGen) includeTree(root string) (files []c17File, entry string, inclu
 		files = append(files, c17File{rel: "broken.dae", link: true})
 		g.stats.Inc("inc.dangling-symlink")
 	}
-	incPool := []string{"a.dae", "b.dae", "sub/c.dae", "sub/*.dae", "*.dae", "sub/deep/e.dae", "sub/d.dae", "./a.dae", "sub/../b.dae", "../outside.dae", "sub/../../outside.dae",
+	dirLinks := false
+	if g.r.Chance(0.12) {
+		dirLinks = true
+		// a DIRECTORY link inside the entry directory that leads out of it (confinement is lexical: what
+		// is included through it is read), and one that leads to a sibling directory inside
+		files = append(files, c17File{rel: "sub/outlink", link: true, target: filepath.Join(filepath.Dir(root), "outdir")})
+		files = append(files, c17File{rel: "inlink", link: true, target: filepath.Join(root, "sub")})
+		g.stats.Inc("inc.directory-symlinks")
+	}
+	incPool := []string{"sub/outlink/x.dae", "sub/outlink/*.dae", "inlink/c.dae", "inlink/*.dae", "sub/outlink/../outside.dae", "a.dae", "b.dae", "sub/c.dae", "sub/*.dae", "*.dae", "sub/deep/e.dae", "sub/d.dae", "./a.dae", "sub/../b.dae", "../outside.dae", "sub/../../outside.dae",
 		"x.conf", "sub/notes.txt", "dir.dae", "*", "sub/*", "nonexistent.dae", "sub/[cd].dae", "sub/?.dae", "[", "config.dae", "sub/z.dae", "*/*.dae", "a.dae/", "",
 		"a.dae.bak", "A.DAE", "x.daemon", ".dae", "conf.dae/notes.txt", "conf.dae", "conf.dae/*", ".hidden.dae", "my file.dae", "*.bak", "*.DAE", "a.dae*", ".*", "broken.dae", "config.dae.bak",
 		root + "/./a.dae", root + "/sub/../a.dae", root + "//b.dae", root + "/sub/./d.dae", // unclean absolute spellings: not cleaned by Merger
@@ -786,6 +839,15 @@ func (g *c17CGen) includeTree(root string) (files []c17File, entry string, inclu
 			g.stats.Inc("inc.perm.too-open")
 		case 3:
 			f.perm = 0o400
+		case 4:
+			// every bit of the mask 0037 on its own (group write, group exec, other r/w/x), two of them
+			// together, and nothing at all
+			f.perm = []os.FileMode{0o620, 0o610, 0o604, 0o602, 0o601, 0o630, 0o607, 0o677, 0o777, 0o020, 0o010, 0o001}[g.r.Intn(12)]
+			g.stats.Inc(fmt.Sprintf("inc.perm.too-open.%04o", f.perm))
+		case 5:
+			// accepted: owner bits and group read are free
+			f.perm = []os.FileMode{0o640, 0o440, 0o700, 0o740, 0o500, 0o200, 0o040, 0o000, 0o100}[g.r.Intn(9)]
+			g.stats.Inc(fmt.Sprintf("inc.perm.accepted.%04o", f.perm))
 		}
 		var b strings.Builder
 		nInc := 0
@@ -796,10 +858,13 @@ func (g *c17CGen) includeTree(root string) (files []c17File, entry string, inclu
 			b.WriteString("include {\n")
 			for i := 0; i < nInc; i++ {
 				v := incPool[g.r.Intn(len(incPool))]
+				if dirLinks && g.r.Chance(0.3) {
+					v = incPool[g.r.Intn(5)] // through one of the directory links
+				}
 				includeVals = append(includeVals, v)
 				switch {
 				case g.r.Chance(0.03):
-					b.WriteString("  f(x) -> y\n")
+					b.WriteString(g.pick("  f(x) -> y\n", "  s { a.dae }\n", "  s { }\n", "  !f(x) && g(y) -> z(k: v)\n"))
 					g.stats.Inc("inc.bad-grammar")
 				case g.r.Chance(0.04) && !strings.ContainsAny(v, "'"): // keyed item: Param.String gives "k:<v>"
 					b.WriteString("  k: '" + v + "'\n")
@@ -975,6 +1040,208 @@ func c17SectionsSorted(ss []*config_parser.Section) string {
 	return strings.Join(parts, "")
 }
 
+// ---------------------------------------------------------------- description of a real tree for the model
+
+type c17TreeDesc struct {
+	cwd       string
+	fw        []string
+	nFiles    int
+	gw        []string
+	nGlobs    int
+	watchDirs []string
+}
+
+// c17Describe describes the directory trees below `roots` as the real file system shows them (files with
+// mode and content, directories, symbolic links with their target) and answers, with the real
+// filepath.Glob, every pattern the include values can produce for this entry.
+func c17Describe(roots []string, entry string, incVals []string) (d c17TreeDesc) {
+	d.cwd, _ = os.Getwd()
+	walkAll := func(fn filepath.WalkFunc) {
+		for _, r := range roots {
+			_ = filepath.Walk(r, fn)
+		}
+	}
+	walkAll(func(p string, fi os.FileInfo, err error) error {
+		if err != nil {
+			return nil
+		}
+		kind, content := "f", ""
+		if fi.Mode()&os.ModeSymlink != 0 {
+			target, _ := os.Readlink(p)
+			d.fw = append(d.fw, c17H(p), "l", "0", c17H(target))
+			d.nFiles++
+			return nil
+		}
+		if fi.IsDir() {
+			kind = "d"
+		} else {
+			b, _ := os.ReadFile(p)
+			content = string(b)
+		}
+		d.fw = append(d.fw, c17H(p), kind, strconv.Itoa(int(fi.Mode()&0o777)), c17H(content))
+		d.nFiles++
+		return nil
+	})
+	// glob oracle for every pattern the include values can produce
+	entryDir := filepath.Dir(entry)
+	seen := map[string]bool{}
+	for _, v := range incVals {
+		pat := v
+		if !filepath.IsAbs(v) {
+			// the pattern Merger must hand to filepath.Glob: only the include VALUE is a pattern, the
+			// entry directory is a literal path (its * ? [ \ are quoted) — a harness-side STATEMENT of
+			// what is expected, answered by the real filepath.Glob; the model computes the same string
+			// itself and a disagreement is a loud glob-miss
+			pat = filepath.Join(c17QuoteGlob(entryDir), v)
+		}
+		if seen[pat] {
+			continue
+		}
+		seen[pat] = true
+		matches, err := filepath.Glob(pat)
+		d.nGlobs++
+		if err != nil {
+			d.gw = append(d.gw, c17H(pat), "-1")
+			continue
+		}
+		d.gw = append(d.gw, c17H(pat), strconv.Itoa(len(matches)))
+		for _, m := range matches {
+			d.gw = append(d.gw, c17H(m))
+		}
+	}
+	walkAll(func(p string, fi os.FileInfo, err error) error {
+		if err == nil && fi.IsDir() {
+			d.watchDirs = append(d.watchDirs, p)
+		}
+		return nil
+	})
+	return d
+}
+
+func c17CollectVals(items []*config_parser.Item, vals *[]string) {
+	for _, it := range items {
+		switch v := it.Value.(type) {
+		case *config_parser.Param:
+			*vals = append(*vals, v.Val)
+			*vals = append(*vals, strings.Split(v.Val, ",")...)
+		case *config_parser.Section:
+			c17CollectVals(v.Items, vals)
+		}
+	}
+}
+
+// richTree writes a configuration SPLIT over an entry file and up to four included files: every top-level
+// section is generated in zero, one or two pieces (required ones mostly one) and each piece lands in a
+// random file, so that keys, lists, rules and groups of one section come from several files; the includes
+// are a list, a glob, a chain, or a mixture, sometimes with a troublesome member.
+func (g *c17CGen) richTree(root string) (entry string, incVals []string) {
+	names := []string{"config.dae", "conf.d/10-global.dae", "conf.d/20-routing.dae", "dns.dae", "conf.d/sub/groups.dae"}
+	k := 1 + g.r.Intn(len(names))
+	names = names[:k]
+	body := make([]strings.Builder, k)
+	g.calm = 4
+	defer func() { g.calm = 0 }()
+	for _, sp := range g.s.specs {
+		pieces := 0
+		switch x := g.r.Intn(100); {
+		case sp.req && x < 80, !sp.req && x >= 45 && x < 85:
+			pieces = 1
+		case sp.req && x < 97, !sp.req && x >= 85:
+			pieces = 2
+		}
+		if sp.req && pieces == 0 {
+			g.stats.Inc("read.required-section-nowhere")
+		}
+		for p := 0; p < pieces; p++ {
+			g.b.Reset()
+			g.section(sp)
+			body[g.r.Intn(k)].WriteString(g.b.String())
+		}
+		if pieces == 2 {
+			g.stats.Inc("read.section-in-two-pieces")
+		}
+	}
+	inc := make([][]string, k)
+	if k > 1 {
+		switch g.r.Intn(4) {
+		case 0: // a list, in random order
+			order := make([]int, 0, k-1)
+			for j := 1; j < k; j++ {
+				order = append(order, j)
+			}
+			for j := len(order) - 1; j > 0; j-- {
+				o := g.r.Intn(j + 1)
+				order[j], order[o] = order[o], order[j]
+			}
+			for _, j := range order {
+				inc[0] = append(inc[0], names[j])
+			}
+			g.stats.Inc("read.layout.list")
+		case 1: // globs
+			inc[0] = append(inc[0], "conf.d/*.dae")
+			if k > 3 {
+				inc[0] = append(inc[0], g.pick("*.dae", "dns.dae", "[d]ns.dae"))
+			}
+			if k > 4 {
+				inc[0] = append(inc[0], "conf.d/*/*.dae")
+			}
+			g.stats.Inc("read.layout.glob")
+		case 2: // a chain
+			for j := 0; j+1 < k; j++ {
+				inc[j] = append(inc[j], names[j+1])
+			}
+			g.stats.Inc("read.layout.chain")
+		default: // a tree: every file is included by an earlier one
+			for j := 1; j < k; j++ {
+				o := g.r.Intn(j)
+				inc[o] = append(inc[o], names[j])
+			}
+			g.stats.Inc("read.layout.tree")
+		}
+	} else {
+		g.stats.Inc("read.layout.single-file")
+	}
+	if g.r.Chance(0.12) { // a troublesome member somewhere
+		j := g.r.Intn(k)
+		v := g.pick("config.dae", "../outside.dae", "notes.txt", "missing.dae", "conf.d", names[j], "/etc/passwd")
+		inc[j] = append(inc[j], v)
+		_ = os.MkdirAll(filepath.Dir(filepath.Join(root, "notes.txt")), 0o750)
+		_ = os.WriteFile(filepath.Join(root, "notes.txt"), []byte("node { 'x' }\n"), 0o600)
+		_ = os.WriteFile(filepath.Join(filepath.Dir(root), "outside.dae"), []byte("node { outside }\n"), 0o600)
+		g.stats.Inc("read.troublesome-include")
+	}
+	for j := 0; j < k; j++ {
+		text := body[j].String()
+		if len(inc[j]) > 0 {
+			h := "include {\n"
+			for _, v := range inc[j] {
+				h += "  '" + v + "'\n"
+				incVals = append(incVals, v)
+			}
+			h += "}\n"
+			if g.r.Chance(0.3) {
+				text = text + h // the include section may stand anywhere in the file
+			} else {
+				text = h + text
+			}
+		}
+		perm := os.FileMode(0o600)
+		switch x := g.r.Intn(40); {
+		case x == 0:
+			perm = 0o644
+			g.stats.Inc("read.file-too-open")
+		case x < 8:
+			perm = 0o640
+		}
+		p := filepath.Join(root, names[j])
+		_ = os.MkdirAll(filepath.Dir(p), 0o750)
+		_ = os.WriteFile(p, []byte(text), perm)
+		_ = os.Chmod(p, perm)
+	}
+	g.stats.Inc(fmt.Sprintf("read.files.%d", k))
+	return filepath.Join(root, names[0]), incVals
+}
+
 func TestVerifC17Config(t *testing.T) {
 	shard, shards := VEnvInt("VERIF_SHARD", 0), VEnvInt("VERIF_SHARDS", 1)
 	r := NewVRand(VSeed()*7919 + 17 + uint64(shard))
@@ -1041,7 +1308,8 @@ func TestVerifC17Config(t *testing.T) {
 		decVals := []string{"", " ", "0", "1", "-0", "+0", "00", "07", "08", "0x", "0x0", "0X1f", "0b", "0b2", "0B101", "0o", "0o17", "0O8", "1_000", "1__0", "_1", "1_", "0x_1", "0_x1", "0_7", "0x1_f", "-_1", "+5", "-5", "--5", "+-5", "5+", "1e3", "1.0", "١", "１",
 			"255", "256", "-128", "-129", "127", "128", "65535", "65536", "0x10000", "4294967295", "4294967296", "2147483647", "2147483648", "-2147483648", "-2147483649",
 			"9223372036854775807", "9223372036854775808", "-9223372036854775808", "-9223372036854775809", "18446744073709551615", "18446744073709551616", "0xffffffffffffffff", "0x10000000000000000", "99999999999999999999999999",
-			"true", "TRUE", "True", "tRuE", "t", "T", "1", "y", "Y", "yes", "YES", "on", "ON", "false", "FALSE", "f", "F", "n", "no", "NO", "off", "OFF", "tru", "yess", " true", "true ", "2", "ye", "oN", "İ", "ｔｒｕｅ"}
+			"true", "TRUE", "True", "tRuE", "t", "T", "1", "y", "Y", "yes", "YES", "on", "ON", "false", "FALSE", "f", "F", "n", "no", "NO", "off", "OFF", "tru", "yess", " true", "true ", "2", "ye", "oN", "İ", "ｔｒｕｅ",
+			"enable", "enabled", "disable", "disabled", "ok", "none", "null", "nil", "si", "ja", "o", "of", "tr", "fa", "fals", "-1", "01", "00", "0x1", "1.0", "+1", "t\x00", "on\n", "\ttrue"}
 		for i := 0; i < 600; i++ { // random integer-like strings
 			const alpha = "0123456789abcxXoObB_+-"
 			n := 1 + r.Intn(8)
@@ -1075,6 +1343,51 @@ func TestVerifC17Config(t *testing.T) {
 				}
 				st.Emit(fmt.Sprintf("d %d %s", k, c17H(v)), out)
 			}
+		}
+		// the two kinds the model does not specify: the REAL FuzzyDecode / BootstrapResolvers against the
+		// standard library's answer (op `do <kind> <val> <answer>`; the driver repeats the answer)
+		durVals := []string{"", "0", "0s", "1s", "1.5h", "-1.5h", "+3m", "1h2m3s4ms5us6ns", "1µs", "1μs", "1us", ".5s", "5.s", ".s", "1", "30", "s", "1x", "1d", "1w", "1e3s", " 1s", "1s ", "1 s",
+			"9223372036854775807ns", "9223372036854775808ns", "-9223372036854775808ns", "-9223372036854775809ns", "2562047h47m16.854775807s", "2562047h47m16.854775808s", "2562048h",
+			"0.000000000000000000000001s", "1.0000000000000000000000000001h", "3000000h", "1H", "1S", "1Ms", "١s", "1m-1s", "--1s", "+-1s", "-+1s", "+", "-", "1_0s", "0x10s", "1s1", "999999999999999999999s",
+			"0.9223372036854775807h", "1.5", "ms", "1ms1", "1hh", "5m5", "1h1h", "00001s", "1.s2", "1..5s", "1,5s", "９s", "1ｓ", "1\u00b5s", "100000000000000000000ns", "0.1ns", "0.5ns", "1.999999999ns", "4294967296s", "1n", "1u", "1µ", "1min"}
+		for i := 0; i < 400; i++ {
+			const alpha = "0123456789.hmsnuµ+- "
+			rs := []rune(alpha)
+			n := 1 + r.Intn(7)
+			b := make([]rune, n)
+			for j := range b {
+				b[j] = rs[r.Intn(len(rs))]
+			}
+			durVals = append(durVals, string(b))
+		}
+		for k := range schema.kinds {
+			if schema.kinds[k] != reflect.TypeFor[time.Duration]() {
+				continue
+			}
+			for _, v := range durVals {
+				res, ok := schema.oracle(k, v) // common.FuzzyDecode
+				out := "err"
+				if ok {
+					out = "ok " + c17Esc(res)
+					stats.Inc("dec.duration.accepted")
+				} else {
+					stats.Inc("dec.duration.rejected")
+				}
+				st.Emit(fmt.Sprintf("do %s", schema.oracleEntry(k, v)), out)
+			}
+		}
+		for _, v := range []string{"", " ", "\t\n", "8.8.8.8:53", " 8.8.8.8:53 ", "\t8.8.8.8:53\n", "8.8.8.8", "8.8.8.8:", ":53", "8.8.8.8:053", "8.8.8.8:65535", "8.8.8.8:65536", "8.8.8.8:0", "[::1]:53", "::1:53", "[::1]", "[::1]:",
+			"[fe80::1%eth0]:53", "[fe80::1%]:53", "dns.google:53", "localhost:53", "1.2.3:53", "1.2.3.4.5:53", "01.2.3.4:53", "256.1.1.1:53", "[1.2.3.4]:53", "8.8.8.8:53:53", "8.8.8.8:-1", "8.8.8.8:+53",
+			"8.8.8.8:5 3", "8.8.8.8 :53", "[::ffff:1.2.3.4]:53", "[::]:0", "[:::]:53", "[1:2:3:4:5:6:7:8]:1", "[1:2:3:4:5:6:7:8:9]:1", "[1::2::3]:1", "8.8.8.8：53", "８.8.8.8:53", "udp://8.8.8.8:53", "8.8.8.8:53/", "x", "119.29.29.29:53,223.5.5.5:53"} {
+			res, ok := schema.oracle(100, v) // config.BootstrapResolvers
+			out := "err"
+			if ok {
+				out = "ok " + c17Esc(res)
+				stats.Inc("dec.addrport.accepted")
+			} else {
+				stats.Inc("dec.addrport.rejected")
+			}
+			st.Emit(fmt.Sprintf("do %s", schema.oracleEntry(100, v)), out)
 		}
 	}
 
@@ -1210,6 +1523,16 @@ func TestVerifC17Config(t *testing.T) {
 				_ = os.MkdirAll(p, 0o750)
 				continue
 			}
+			if f.link && f.target != "" {
+				if filepath.Base(f.target) == "outdir" {
+					_ = os.MkdirAll(f.target, 0o750)
+					_ = os.WriteFile(filepath.Join(f.target, "x.dae"), []byte("node {\n  through_outlink: 'x'\n}\n"), 0o600)
+					_ = os.WriteFile(filepath.Join(f.target, "notes.txt"), []byte("node { 'x' }\n"), 0o600)
+				}
+				_ = os.MkdirAll(f.target, 0o750)
+				_ = os.Symlink(f.target, p)
+				continue
+			}
 			if f.link {
 				_ = os.Symlink(filepath.Join(root, "does-not-exist"), p)
 				continue
@@ -1288,111 +1611,157 @@ func TestVerifC17Config(t *testing.T) {
 				stats.Inc("inc.entry-spelling.clean-absolute")
 			}
 		}
-		cwd, _ := os.Getwd()
-		// describe the tree as the real file system shows it
-		var fw []string
-		nFiles := 0
-		walkBoth := func(fn filepath.WalkFunc) {
-			_ = filepath.Walk(filepath.Dir(root), fn)
-			_ = filepath.Walk(filepath.Dir(trusted), fn)
+		steps := 1
+		if i >= nDirected && r.Chance(0.1) {
+			// a RELOAD HISTORY: the same tree, under the same paths, is merged again after files were edited,
+			// removed, created or re-chmod-ed in between (production re-reads the configuration on every
+			// reload with a fresh Merger; nothing of an earlier read may survive)
+			steps = 3
+			stats.Inc("inc.history.trees")
 		}
-		walkBoth(func(p string, fi os.FileInfo, err error) error {
-			if err != nil {
-				return nil
+		for step := 0; step < steps; step++ {
+			if step > 0 {
+				files2, _, inc2 := g.includeTree(root)
+				incVals = append(incVals, inc2...)
+				for _, f := range files2 {
+					if f.dir || f.link {
+						continue
+					}
+					p := filepath.Join(root, f.rel)
+					if fi, err := os.Lstat(p); err == nil && !fi.Mode().IsRegular() {
+						continue
+					}
+					switch k := r.Intn(10); {
+					case k < 3:
+						_ = os.MkdirAll(filepath.Dir(p), 0o750)
+						_ = os.Remove(p)
+						_ = os.WriteFile(p, []byte(f.content), f.perm)
+						_ = os.Chmod(p, f.perm)
+						stats.Inc("inc.history.edit")
+					case k == 3:
+						_ = os.Remove(p)
+						stats.Inc("inc.history.remove")
+					case k == 4:
+						_ = os.Chmod(p, f.perm)
+						stats.Inc("inc.history.chmod")
+					}
+				}
+				stats.Inc(fmt.Sprintf("inc.history.step%d", step))
 			}
-			kind, content := "f", ""
-			if fi.Mode()&os.ModeSymlink != 0 {
-				target, _ := os.Readlink(p)
-				fw = append(fw, c17H(p), "l", "0", c17H(target))
-				nFiles++
-				return nil
+			desc := c17Describe([]string{filepath.Dir(root), filepath.Dir(trusted)}, entry, incVals)
+			cwd, fw, nFiles, gw, nGlobs, watchDirs := desc.cwd, desc.fw, desc.nFiles, desc.gw, desc.nGlobs, desc.watchDirs
+			watch, werr := c17WatchStart(watchDirs)
+			if werr != nil {
+				t.Fatalf("inotify: %v", werr)
 			}
-			if fi.IsDir() {
-				kind = "d"
-			} else {
-				b, _ := os.ReadFile(p)
-				content = string(b)
+			out := VRecover(func() string {
+				ss, entries, err := NewMerger(entry).Merge()
+				if err != nil {
+					return c17MergeErrClass(err)
+				}
+				sort.Strings(entries)
+				for j := range entries {
+					entries[j] = c17Esc(entries[j])
+				}
+				return "ok " + c17SectionsSorted(ss) + " entries=" + strings.Join(entries, ",")
+			})
+			openedReal := watch.Drain()
+			for j := range openedReal {
+				if !strings.HasSuffix(openedReal[j], ".dae") {
+					stats.Inc("inc.opened.NOT-DAE")
+				}
+				if strings.Contains(openedReal[j], "/outdir/") {
+					stats.Inc("inc.opened.through-directory-link-leading-outside")
+				}
+				absDir, _ := filepath.Abs(filepath.Dir(entry))
+				if rel, err := filepath.Rel(absDir, openedReal[j]); err != nil || strings.HasPrefix(rel, "..") {
+					stats.Inc("inc.opened.real-file-outside-entry-dir(symlink)")
+				}
+				openedReal[j] = c17Esc(openedReal[j])
 			}
-			fw = append(fw, c17H(p), kind, strconv.Itoa(int(fi.Mode()&0o777)), c17H(content))
-			nFiles++
-			return nil
-		})
-		// glob oracle for every pattern the include values can produce
-		entryDir := filepath.Dir(entry)
-		var gw []string
-		nGlobs := 0
-		seen := map[string]bool{}
-		for _, v := range incVals {
-			pat := v
-			if !filepath.IsAbs(v) {
-				// the pattern Merger must hand to filepath.Glob: only the include VALUE is a pattern, the
-				// entry directory is a literal path (its * ? [ \ are quoted) — a harness-side STATEMENT of
-				// what is expected, answered by the real filepath.Glob; the model computes the same string
-				// itself and a disagreement is a loud glob-miss
-				pat = filepath.Join(c17QuoteGlob(entryDir), v)
+			stats.Add("inc.opened.files", len(openedReal))
+			out += " opened=" + strings.Join(openedReal, ",")
+			cls, _, _ := strings.Cut(out, " opened=")
+			if strings.HasPrefix(out, "ok") {
+				cls = "ok"
+				stats.Add("inc.files-merged", strings.Count(strings.SplitN(out, " opened=", 2)[0], ",")+1)
 			}
-			if seen[pat] {
-				continue
+			stats.Inc("inc.result." + cls)
+			if i < nDirected+2 && shard == 0 {
+				stats.Sample("merge: " + out)
 			}
-			seen[pat] = true
-			matches, err := filepath.Glob(pat)
-			nGlobs++
-			if err != nil {
-				gw = append(gw, c17H(pat), "-1")
-				continue
+			if steps > 1 {
+				stats.Inc("inc.history.result." + cls)
 			}
-			gw = append(gw, c17H(pat), strconv.Itoa(len(matches)))
-			for _, m := range matches {
-				gw = append(gw, c17H(m))
-			}
-		}
-		var watchDirs []string
-		walkBoth(func(p string, fi os.FileInfo, err error) error {
-			if err == nil && fi.IsDir() {
-				watchDirs = append(watchDirs, p)
-			}
-			return nil
-		})
-		watch, werr := c17WatchStart(watchDirs)
-		if werr != nil {
-			t.Fatalf("inotify: %v", werr)
-		}
-		out := VRecover(func() string {
-			ss, entries, err := NewMerger(entry).Merge()
-			if err != nil {
-				return c17MergeErrClass(err)
-			}
-			sort.Strings(entries)
-			for j := range entries {
-				entries[j] = c17Esc(entries[j])
-			}
-			return "ok " + c17SectionsSorted(ss) + " entries=" + strings.Join(entries, ",")
-		})
-		openedReal := watch.Drain()
-		for j := range openedReal {
-			if !strings.HasSuffix(openedReal[j], ".dae") {
-				stats.Inc("inc.opened.NOT-DAE")
-			}
-			absDir, _ := filepath.Abs(filepath.Dir(entry))
-			if rel, err := filepath.Rel(absDir, openedReal[j]); err != nil || strings.HasPrefix(rel, "..") {
-				stats.Inc("inc.opened.real-file-outside-entry-dir(symlink)")
-			}
-			openedReal[j] = c17Esc(openedReal[j])
-		}
-		stats.Add("inc.opened.files", len(openedReal))
-		out += " opened=" + strings.Join(openedReal, ",")
-		cls, _, _ := strings.Cut(out, " opened=")
-		if strings.HasPrefix(out, "ok") {
-			cls = "ok"
-			stats.Add("inc.files-merged", strings.Count(strings.SplitN(out, " opened=", 2)[0], ",")+1)
-		}
-		stats.Inc("inc.result." + cls)
-		if i < nDirected+2 && shard == 0 {
-			stats.Sample("merge: " + out)
-		}
-		st.Emit(fmt.Sprintf("m %s C %s F %d %s G %d %s", c17H(entry), c17H(cwd), nFiles, strings.Join(fw, " "), nGlobs, strings.Join(gw, " ")), out)
+			st.Emit(fmt.Sprintf("m %s C %s F %d %s G %d %s", c17H(entry), c17H(cwd), nFiles, strings.Join(fw, " "), nGlobs, strings.Join(gw, " ")), out)
+		} // steps
+		i += steps - 1 // a history takes its steps out of the merge budget
 		_ = os.Chdir(origWd)
 		_ = os.RemoveAll(filepath.Join(base, fmt.Sprintf("t%d", i)))
 		_ = os.RemoveAll(filepath.Join(base, fmt.Sprintf("t%d-share", i)))
+	}
+
+	// ---- the production composition Merger.Merge ; config.New (what cmd.readConfig does) on trees whose
+	// files carry REAL configuration content split over the entry and its includes: list keys, scalar keys,
+	// rules, groups and whole sections repeated across files
+	nr := VEnvInt("VERIF_C17_READ_N", 300)
+	if VThorough() {
+		nr = VEnvInt("VERIF_C17_READ_N", 3000)
+	}
+	nr /= shards
+	for i := 0; i < nr; i++ {
+		root := filepath.Join(base, fmt.Sprintf("r%d", i), "etc")
+		entry, incVals := g.richTree(root)
+		desc := c17Describe([]string{filepath.Dir(root)}, entry, incVals)
+		var vals []string
+		out := VRecover(func() string {
+			ss, _, err := NewMerger(entry).Merge()
+			if err != nil {
+				return "err:merge:" + strings.TrimPrefix(c17MergeErrClass(err), "err:")
+			}
+			for _, s := range ss {
+				c17CollectVals(s.Items, &vals)
+			}
+			conf, err := New(ss)
+			if err != nil {
+				if conf != nil {
+					return "err-with-config"
+				}
+				return c17ErrClass(err)
+			}
+			var leaves []string
+			c17Leaves("", reflect.ValueOf(conf).Elem(), &leaves)
+			sort.Strings(leaves)
+			return "ok " + strings.Join(leaves, ";")
+		})
+		seen := map[string]bool{}
+		var entries []string
+		for _, v := range vals {
+			if seen[v] {
+				continue
+			}
+			seen[v] = true
+			for k := range schema.kinds {
+				entries = append(entries, schema.oracleEntry(k, v))
+			}
+			entries = append(entries, schema.oracleEntry(100, v))
+		}
+		entries = append(entries, schema.oracleEntry(100, ""))
+		switch {
+		case strings.HasPrefix(out, "ok"):
+			stats.Inc("read.result.ok")
+		case strings.HasPrefix(out, "err:merge"):
+			stats.Inc("read.result.err:merge")
+		case strings.HasPrefix(out, "crash"):
+			stats.Inc("read.result.CRASH")
+		default:
+			stats.Inc("read.result.err:new")
+		}
+		if i < 2 && shard == 0 {
+			stats.Sample("read: " + out)
+		}
+		st.Emit(fmt.Sprintf("r %s C %s F %d %s G %d %s O %d %s", c17H(entry), c17H(desc.cwd), desc.nFiles, strings.Join(desc.fw, " "), desc.nGlobs, strings.Join(desc.gw, " "),
+			len(entries), strings.Join(entries, " ")), out)
+		_ = os.RemoveAll(filepath.Join(base, fmt.Sprintf("r%d", i)))
 	}
 }
